@@ -73,7 +73,7 @@ def run(R):
     ninst = 0
     for i in range(0, len(jobs), 400):
         recs = gramrun.run_grammars(jobs[i:i + 400], chunk=8)
-        gramrun.compare(R, recs, 'spans', lambda r, c, g, w: 'span-or-outcome')
+        gramrun.compare(R, recs, 'spans', lambda r, c, g, w: 'span-or-outcome', reject_is_violation=True)
         # executable spec judge on the implementation's own raw results
         reqs, meta = [], []
         for r in recs:
